@@ -670,6 +670,12 @@ fn analyse(case: &Case, ob: &Observed, rep: &mut CaseReport) {
     // echo: the reply consumed on a socket carries id and name of the query sent from it
     if case.rogue == "none" {
         for q in &qs {
+            // a query made for a name that carries the delimiter is outside the property (the wire
+            // format cannot carry such a name: the server parses the datagram misaligned and echoes
+            // what it parsed, which the model predicts byte for byte); judged by the model stream only
+            if lks.values().any(|l| l.client == q.client && l.port == Some(q.port) && has_delim(&l.name)) {
+                continue;
+            }
             if let Some(r) = &q.reply {
                 match split_reply(r) {
                     Some((id, qn, an, _)) => {
@@ -1189,10 +1195,25 @@ pub fn run(args: &Args) {
     }
     let specs: Vec<String> = cases.iter().map(|c| c.to_lines().join("\n")).collect();
     let outcomes = run_cases(&args.prop, &specs, default_workers(), 20, 120);
+    // at most two listed failures per identity: the list is bounded, and the frequent recorded
+    // finding (listen backlog) must not crowd a new failure out of it
+    let mut seen: std::collections::HashMap<String, u32> = std::collections::HashMap::new();
     for (i, o) in outcomes.iter().enumerate() {
         out.begin_case(i as u64);
         match o {
-            CaseOutcome::Done(rep) => rep.emit(&mut out),
+            CaseOutcome::Done(rep) => {
+                let mut rep = rep.clone();
+                rep.fails.retain(|f| {
+                    let n = seen.entry(f.1.clone()).or_insert(0);
+                    *n += 1;
+                    if *n > 2 {
+                        out.count("oracle_failures");
+                        out.count("oracle_failures_not_listed");
+                    }
+                    *n <= 2
+                });
+                rep.emit(&mut out)
+            }
             died => emit_died(&cases[i], died, &mut out),
         }
         out.end_case();
